@@ -244,6 +244,11 @@ var emitPositions = []emitPos{
 	{"Object.contentMap.key", func(s string) ap.Item {
 		return &ap.Object{ID: eid, Type: ap.NoteType, Content: ap.NaturalLanguageValues{{Ref: ap.LangRef(s), Value: ap.Content("txt")}, {Ref: "fr", Value: ap.Content("fixe")}}}
 	}, []interface{}{"contentMap", "#key:txt"}},
+	// two DIFFERENT tags that differ only in an invalid UTF-8 byte: JSON cannot tell them apart, the map must not repeat a name
+	{"Object.contentMap.twokeys", func(s string) ap.Item {
+		return &ap.Object{ID: eid, Type: ap.NoteType, Content: ap.NaturalLanguageValues{{Ref: ap.LangRef(s), Value: ap.Content("txt")},
+			{Ref: "z\xfe", Value: ap.Content("one")}, {Ref: "z\xff", Value: ap.Content("other")}}}
+	}, []interface{}{"contentMap", "#key:txt"}},
 	{"Object.url", func(s string) ap.Item { return &ap.Object{ID: eid, Type: ap.NoteType, URL: ap.IRI(s)} }, []interface{}{"url"}},
 	{"Object.attributedTo", func(s string) ap.Item { return &ap.Object{ID: eid, Type: ap.NoteType, AttributedTo: ap.IRI(s)} }, []interface{}{"attributedTo"}},
 	{"Object.to[1]", func(s string) ap.Item {
